@@ -658,3 +658,172 @@ Proof.
   destruct (visit_nofilter _ _ _ _ _ E3) as [V1 V2].
   exists n1, n2, t1, t2, fs. subst s1 s2. repeat split; auto. rewrite V1. exact V2.
 Qed.
+
+(* ------------------------------------------------------------------ *)
+(* C18 (c): rows nobody touches are returned exactly                   *)
+(* ------------------------------------------------------------------ *)
+Lemma visit_nofilter_some t k fs coins : scrub_fams (t_fams t) fs <> [] ->
+  visit t None k fs coins = (Some (mkRow k (scrub_fams (t_fams t) fs)), coins).
+Proof.
+  intros H. unfold visit. destruct fs as [|fm fs0]; [exfalso; apply H; reflexivity|]. cbn [negb].
+  destruct (scrub_fams (t_fams t) (fm :: fs0)); [exfalso; apply H; reflexivity|reflexivity].
+Qed.
+
+Lemma scan_section_cover t limit k fs : limit <= 0 -> scrub_fams (t_fams t) fs <> [] ->
+  forall rows count coins pending acc rest c' coins' p' acc' handed stop,
+  scan_section t None limit rows count coins pending acc = (rest, c', coins', p', acc', handed, stop) ->
+  In (k, fs) rows ->
+  In (mkRow k (scrub_fams (t_fams t) fs)) acc' \/ (handed = true /\ In (k, fs) rest).
+Proof.
+  intros Hl Hout. induction rows as [|[k0 fs0] rows IH]; intros count coins pending acc rest c' coins' p' acc' handed stop H Hin;
+    [destruct Hin|].
+  rewrite scan_section_step in H. assert (E : 0 <? limit = false) by lia. rewrite E in H. cbn [andb] in H.
+  destruct Hin as [Heq|Hin].
+  - injection Heq as E1 E2. subst k0 fs0. rewrite (visit_nofilter_some t k fs coins Hout) in H.
+    destruct (btFlushChunks <? pending + cells_of (row_fams (mkRow k (scrub_fams (t_fams t) fs)))).
+    + injection H as _ _ _ _ <- _ _. left. left. reflexivity.
+    + destruct (scan_section_acc _ _ _ _ _ _ _ _ _ _ _ _ _ _ _ H) as [_ [_ H3]]. left. apply H3. left. reflexivity.
+  - destruct (visit t None k0 fs0 coins) as [[r|] c1].
+    + destruct (btFlushChunks <? pending + cells_of (row_fams r)).
+      * injection H as <- _ _ _ _ <- _. right. auto.
+      * eapply IH; eauto.
+    + eapply IH; eauto.
+Qed.
+
+Definition covered (k : bytes) (fs out : list family) (rows : list (bytes * list family)) (rngs : list srange)
+           (acc : list row) : Prop :=
+  In (mkRow k out) acc \/ In (k, fs) rows \/ in_any rngs k.
+
+Definition prog_cover (k : bytes) (fs out : list family) (keys : list bytes) (ranges : list rowrange) (p : progress) : Prop :=
+  match p with
+  | PAtLock => in_any (scan_ranges keys ranges) k
+  | PScan rows rngs _ _ _ acc final => if final then In (mkRow k out) acc else covered k fs out rows rngs acc
+  | _ => False
+  end.
+
+Lemma scan_continue_cover s tbl limit k fs t :
+  limit <= 0 -> alookup tbl s = Some t -> alookup k (t_rows t) = Some fs -> scrub_fams (t_fams t) fs <> [] ->
+  forall fuel rows rngs count coins pending acc, covered k fs (scrub_fams (t_fams t) fs) rows rngs acc ->
+  (length rngs < fuel)%nat ->
+  match scan_continue fuel s tbl None limit rows rngs count coins pending acc with
+  | inl p => forall keys ranges, prog_cover k fs (scrub_fams (t_fams t) fs) keys ranges p
+  | inr rsp => forall res, rsp = ok (YRows res) -> In (mkRow k (scrub_fams (t_fams t) fs)) res
+  end.
+Proof.
+  intros Hl Ht Hk Hout. set (out := scrub_fams (t_fams t) fs).
+  induction fuel as [|fu IH]; intros rows rngs count coins pending acc Hcov Hlen; [lia|].
+  cbn [scan_continue]. rewrite Ht.
+  destruct (scan_section t None limit rows count coins pending acc) as [[[[[[rest c1] coins1] p1] acc1] handed] stop] eqn:Hsec.
+  destruct (scan_section_acc _ _ _ _ _ _ _ _ _ _ _ _ _ _ _ Hsec) as [_ [_ S3]].
+  assert (Hcov1 : In (mkRow k out) acc1 \/ (handed = true /\ In (k, fs) rest) \/ in_any rngs k).
+  { destruct Hcov as [G|[G|G]]; auto.
+    destruct (scan_section_cover t limit k fs Hl Hout _ _ _ _ _ _ _ _ _ _ _ _ Hsec G) as [G'|G']; auto. }
+  destruct handed.
+  - intros ? ?. cbn. destruct Hcov1 as [G|[[_ G]|G]]; [left|right; left|right; right]; auto.
+  - assert (Hcov2 : In (mkRow k out) acc1 \/ in_any rngs k) by (destruct Hcov1 as [G|[[G _]|G]]; auto; discriminate).
+    destruct rngs as [|sr more].
+    + assert (Hacc : In (mkRow k out) acc1) by (destruct Hcov2 as [G|[r [[] _]]]; auto).
+      destruct (0 <? p1); [intros ? ?; exact Hacc|]. intros res Hres. injection Hres as <-. apply in_rev in Hacc. exact Hacc.
+    + apply IH; [|cbn [length] in Hlen; lia]. destruct Hcov2 as [G|[r [[<-|Hr] Hin]]].
+      * left. exact G.
+      * right. left. apply filter_In. split; [apply alookup_in; exact Hk|]. apply in_srange_b_iff. exact Hin.
+      * right. right. exists r. auto.
+Qed.
+
+Section ScanExact.
+  Variables (i : nat) (c : call) (rest : list call) (tbl : bytes) (keys : list bytes) (ranges : list rowrange) (limit : Z).
+  Hypothesis Hreq : cl_req c = BReadRows tbl keys ranges None limit.
+  Variables (k : bytes) (fs : list family) (tf : list (bytes * option gcrule)).
+
+  (* in server state s the table exists with families tf and holds fs under key k *)
+  Definition row_const (s : server) : Prop :=
+    exists t, alookup tbl s = Some t /\ t_fams t = tf /\ asorted (t_rows t) /\ alookup k (t_rows t) = Some fs.
+
+  Hypothesis Hlimit : limit <= 0.
+  Hypothesis Hout : scrub_fams tf fs <> [].
+
+  Lemma scan_resume_cover st p x : row_const (cs_server st) -> prog_cover k fs (scrub_fams tf fs) keys ranges p ->
+    scan_resume (cs_server st) c p = Some x ->
+    match x with
+    | inl p' => prog_cover k fs (scrub_fams tf fs) keys ranges p'
+    | inr rsp => forall res, rsp = ok (YRows res) -> In (mkRow k (scrub_fams tf fs)) res
+    end.
+  Proof.
+    intros [t [Ht [Hf [_ Hk]]]] Hcov Hs. unfold scan_resume in Hs. rewrite Hreq in Hs. subst tf.
+    destruct p as [| | |rows rngs count coins pending acc final|]; try discriminate.
+    - apply some_inj in Hs.
+      pose proof (scan_continue_cover (cs_server st) tbl limit k fs t Hlimit Ht Hk Hout (S (S (length keys + length ranges))) []
+                    (scan_ranges keys ranges) 0 (cl_coins c) 0 []) as G.
+      rewrite Hs in G. destruct x; [intros; apply G|apply G]; try (right; right; exact Hcov);
+        pose proof (scan_ranges_length keys ranges); lia.
+    - destruct final; [discriminate|]. apply some_inj in Hs.
+      pose proof (scan_continue_cover (cs_server st) tbl limit k fs t Hlimit Ht Hk Hout (S (S (length rngs))) rows rngs count coins pending acc) as G.
+      rewrite Hs in G. destruct x; [intros; apply G|apply G]; auto.
+  Qed.
+
+  Lemma prog_cover_shape p : prog_cover k fs (scrub_fams tf fs) keys ranges p -> p = PAtLock \/ is_scan_prog p = true.
+  Proof. destruct p; cbn; auto; tauto. Qed.
+
+  Lemma scan_cover_run : forall sb st p res,
+    thread_at st i c rest p -> prog_cover k fs (scrub_fams tf fs) keys ranges p ->
+    (forall s, In s (own_servers i st (sb ++ [i])) -> row_const s) ->
+    done_of i sb (snd (crun st sb)) = [] ->
+    snd (cstep (fst (crun st sb)) i) = ODone (ok (YRows res)) ->
+    In (mkRow k (scrub_fams tf fs)) res.
+  Proof.
+    induction sb as [|j sb IH]; intros st p res Hat Hcov Hconst Hnd Hdone.
+    - cbn [crun fst app own_servers] in *. rewrite Nat.eqb_refl in Hconst.
+      assert (Hc : row_const (cs_server st)) by (apply Hconst; left; reflexivity).
+      rewrite (cstep_scan _ _ _ _ _ _ _ _ _ _ Hat Hreq (prog_cover_shape _ Hcov)) in Hdone.
+      destruct (blocked_for st i); [discriminate|].
+      destruct (final_acc p) as [acc|] eqn:Hfa.
+      + cbn in Hdone. injection Hdone as <-. destruct p; try discriminate. destruct final; [|discriminate]. injection Hfa as ->.
+        cbn in Hcov. apply in_rev in Hcov. exact Hcov.
+      + destruct (scan_resume (cs_server st) c p) as [[p'|rsp]|] eqn:Hs; cbn in Hdone; try discriminate.
+        injection Hdone as ->. exact (scan_resume_cover st p _ Hc Hcov Hs res eq_refl).
+    - rewrite crun_cons in Hnd, Hdone. cbn [fst snd done_of] in Hnd, Hdone. apply app_eq_nil in Hnd. destruct Hnd as [Hnd1 Hnd2].
+      rewrite <- app_comm_cons in Hconst. cbn [own_servers] in Hconst.
+      destruct (Nat.eqb j i) eqn:Eji.
+      + apply Nat.eqb_eq in Eji. subst j.
+        assert (Hc : row_const (cs_server st)) by (apply Hconst; left; reflexivity).
+        assert (Hconst' : forall s, In s (own_servers i (fst (cstep st i)) (sb ++ [i])) -> row_const s)
+          by (intros s Hs; apply Hconst; right; exact Hs).
+        pose proof (cstep_scan _ _ _ _ _ _ _ _ _ _ Hat Hreq (prog_cover_shape _ Hcov)) as Hstep.
+        destruct (blocked_for st i).
+        * rewrite Hstep in *. cbn [fst] in *. eapply IH; eauto.
+        * destruct (final_acc p) as [acc|]; [rewrite Hstep in Hnd1; discriminate|].
+          destruct (scan_resume (cs_server st) c p) as [[p'|rsp]|] eqn:Hs.
+          -- rewrite Hstep in *. cbn [fst] in *. eapply (IH _ p'); eauto.
+             ++ unfold thread_at, set_prog. cbn [cs_threads]. apply (nth_error_upd_same _ _ _ _ Hat).
+             ++ exact (scan_resume_cover st p _ Hc Hcov Hs).
+          -- rewrite Hstep in Hnd1. discriminate.
+          -- rewrite Hstep in *. cbn [fst] in *. eapply IH; eauto.
+      + cbn [app] in Hconst. apply (IH (fst (cstep st j)) p res); auto.
+        unfold thread_at. rewrite cstep_frame; auto. apply Nat.eqb_neq in Eji. auto.
+  Qed.
+End ScanExact.
+
+(* C18 (c): an unfiltered read interleaved with ANY other threads.  Let key k hold the same value
+   fs, in a table with the same families tf, in every state in which the scan runs a section
+   (e.g. because no write commits to k and no admin request touches the table between the scan's
+   start and end).  Then (1) a returned row with key k is exactly the stored value (scrubbed), and
+   (2) without a row limit, if k is requested and has output, its row IS returned. *)
+Theorem scan_untouched_rows_exact : forall st i c rest tbl keys ranges limit sb res k fs tf,
+  thread_at st i c rest PAtLock -> cl_req c = BReadRows tbl keys ranges None limit ->
+  done_of i sb (snd (crun st sb)) = [] ->
+  snd (cstep (fst (crun st sb)) i) = ODone (ok (YRows res)) ->
+  (forall s, In s (own_servers i st (sb ++ [i])) -> row_const tbl k fs tf s) ->
+  (forall r, In r res -> row_key r = k -> r = mkRow k (scrub_fams tf fs))
+  /\ (limit <= 0 -> in_any (scan_ranges keys ranges) k -> scrub_fams tf fs <> [] -> In (mkRow k (scrub_fams tf fs)) res).
+Proof.
+  intros st i c rest tbl keys ranges limit sb res k fs tf Hat Hr Hnd Hdone Hconst. split.
+  - intros r Hin Hk.
+    destruct (scan_rows_from_snapshot st i c rest tbl keys ranges None limit sb res Hat Hr Hnd Hdone r Hin)
+      as [fs' [s2 [t2 [coins [[s1 [t1 [S1 [S2 S3]]]] [E1 [E2 E3]]]]]]].
+    destruct (Hconst s1 S1) as [t1' [A1 [_ [A3 A4]]]]. rewrite S2 in A1. injection A1 as <-.
+    destruct (Hconst s2 E1) as [t2' [B1 [B2 _]]]. rewrite E2 in B1. injection B1 as <-.
+    rewrite Hk in S3. rewrite (asorted_in_alookup _ _ _ A3 S3) in A4. injection A4 as ->.
+    destruct (visit_nofilter _ _ _ _ _ E3) as [V1 _]. rewrite V1, B2, Hk. reflexivity.
+  - intros Hl Hin Hout.
+    exact (scan_cover_run i c rest tbl keys ranges limit Hr k fs tf Hl Hout sb st PAtLock res Hat Hin Hconst Hnd Hdone).
+Qed.
